@@ -50,10 +50,22 @@ pub fn write_list(
     Ok(())
 }
 
-pub struct DebugRepr<T: std::fmt::Debug>(pub T);
+/// Format a string as a JSON string literal
+pub struct DebugRepr<T: AsRef<str>>(pub T);
 
-impl<T: std::fmt::Debug> std::fmt::Display for DebugRepr<T> {
+impl<T: AsRef<str>> std::fmt::Display for DebugRepr<T> {
     fn fmt(&self, f: &mut std::fmt::Formatter<'_>) -> std::fmt::Result {
-        write!(f, "{:?}", self.0)
+        use std::fmt::Write;
+
+        f.write_char('"')?;
+        for c in self.0.as_ref().chars() {
+            match c {
+                '"' => f.write_str("\\\"")?,
+                '\\' => f.write_str("\\\\")?,
+                c if (c as u32) < 0x20 => write!(f, "\\u{:04x}", c as u32)?,
+                c => f.write_char(c)?,
+            }
+        }
+        f.write_char('"')
     }
 }
